@@ -51,6 +51,12 @@ func New(r *rand.Rand) *G {
 	if r.Intn(4) == 0 {
 		g.Dates = append(g.Dates, 0)
 	}
+	if r.Intn(5) == 0 {
+		// instants before 1970 (the wire carries them as wrapped unsigned seconds): the second before
+		// the epoch, a year before it, Go's zero time.Time
+		neg := []int64{-1, -365 * 86400, -62135596800}
+		g.Dates = append(g.Dates, uint64(neg[r.Intn(len(neg))]))
+	}
 	g.Byts = [][]byte{{}, {0x41}, {0x41, 0x42}, {0xff, 0x00, 0x10}}
 	g.VarNames = []string{"x", "y", "z", "u", "v", "w"}
 	if r.Intn(3) == 0 {
